@@ -253,6 +253,7 @@ func runC27(c *core.Ctx) {
 		eng.MustPassCall(c, "C27.fresh-head", fn, "GetCurrentHeader", eng.CallPred(gch), ir.CallSinks(muts, name), name, &eng.Opt{Start: next})
 	}
 	checkEthHeadPointer(c)
+	checkRestructHeights(c)
 	checkBtcCommitHeader(c)
 }
 
